@@ -3,7 +3,7 @@
 // oracle for the property.
 //
 // op line (one distributed case):
-//     np=<P> num=<d|c> ord=<a|f> del=<m|r> : <g>=<h>,<h>,...;<g>=<h>,...;...
+//     np=<P> num=<d|c|s> ord=<a|f> del=<m|r> [re=<0|s|d>] : <g>=<h>,<h>,...;<g>=<h>,...;...
 //   one segment per global index g (decimal, distinct); holder token <h> = <rank><attr><status>
 //     attr    o|v|c        owner / overlap / copy  (enum values 0/1/2)
 //     status  k  held at rebuild time and kept
@@ -12,11 +12,18 @@
 //                rebuild-time neighbour that holds g according to this line (any status)
 //             n  not held before the sync (the copy exists only in other processes' belief)
 //   num: d = IndicesSyncer::sync() (DefaultNumberer: new local index = size_t max, printed M),
-//        c = sync(numberer, fixed) with the user numberer g -> 1000+g;  ord: a = arrival order, f = fixed order (only
-//        with num=c);  del: how status d is carried out: m = RemoteIndexListModifier<.,.,true>::remove +
-//        modifier.repairLocalIndexPointers(), r = SLList modify iterators + Dune::repairLocalIndexPointers as
-//        dune/common/parallel/test/syncertest.cc does.
-// answer of one rank:  I[<g><attr>:<local>,...] N<q>[<g><ownattr><remoteattr>@<position in I>,...] ... S<0|1>
+//        c = sync(numberer, fixed) with the user numberer g -> 1000+g;
+//        s = sync(numberer, fixed) with a numberer object that has state: it hands out 2000, 2001, ... and counts its
+//            calls (the same object is used for the second round); with ord=a the numbers depend on the arrival order
+//            and are printed as S (the oracle checks that they are distinct and from the block handed out);
+//        ord: a = arrival order, f = fixed order (only with num=c|s);  del: how status d is carried out:
+//        m = RemoteIndexListModifier<.,.,true>::remove + modifier.repairLocalIndexPointers(), r = SLList modify
+//        iterators + Dune::repairLocalIndexPointers as dune/common/parallel/test/syncertest.cc does;
+//        re (second round, default 0): s = sync again with a new IndicesSyncer object; d = first delete the status-d
+//        copies again (those the first sync restored), then sync again.
+// answer of one rank:  A(<state before the first sync>) B(<state after it>) [C(<state after the second sync>)]
+//   state = I[<g><attr>:<local>,...] N<q>[<g><ownattr><remoteattr>@<position in I>,...] ... [S<0|1>] [K<numberer calls>]
+//   (S only after a sync, K only for num=s)
 #include <config.h>
 
 #include <mpi.h>
@@ -51,8 +58,10 @@ static std::string attrStr(int a) { return (a >= 0 && a < 3) ? std::string(1, AT
 struct Tok { int rank, g, attr; char st; };
 struct Case {
   int np = 0;
-  bool custom = false, fixed = false;
+  char num = 'd';   // d default numberer, c pure user numberer, s numberer object with state
+  bool fixed = false;
   char del = 'r';
+  char re = '0';    // second round: 0 none, s sync again, d delete the status-d copies again and sync again
   std::vector<Tok> toks;
   bool ok = false;
 };
@@ -62,18 +71,17 @@ static Case parse(const std::string& line) {
   size_t sep = line.find(" : ");
   std::string head = sep == std::string::npos ? line : line.substr(0, sep);
   std::string body = sep == std::string::npos ? "" : line.substr(sep + 3);
-  bool hn = false, hnum = false, hord = false, hdel = false;
+  bool hn = false, hnum = false, hord = false, hdel = false, hre = false;
   for (auto& w : words(head)) {
-    if (w.rfind("np=", 0) == 0) { c.np = std::atoi(w.c_str() + 3); hn = true; }
-    else if (w == "num=d") { c.custom = false; hnum = true; }
-    else if (w == "num=c") { c.custom = true; hnum = true; }
-    else if (w == "ord=a") { c.fixed = false; hord = true; }
-    else if (w == "ord=f") { c.fixed = true; hord = true; }
-    else if (w == "del=m") { c.del = 'm'; hdel = true; }
-    else if (w == "del=r") { c.del = 'r'; hdel = true; }
+    if (w.rfind("np=", 0) == 0 && !hn) { c.np = std::atoi(w.c_str() + 3); hn = true; }
+    else if ((w == "num=d" || w == "num=c" || w == "num=s") && !hnum) { c.num = w[4]; hnum = true; }
+    else if (w == "ord=a" && !hord) { c.fixed = false; hord = true; }
+    else if (w == "ord=f" && !hord) { c.fixed = true; hord = true; }
+    else if ((w == "del=m" || w == "del=r") && !hdel) { c.del = w[4]; hdel = true; }
+    else if ((w == "re=0" || w == "re=s" || w == "re=d") && !hre && hdel) { c.re = w[3]; hre = true; }
     else return c;
   }
-  if (!hn || !hnum || !hord || !hdel || c.np < 1 || c.np > 64 || (c.fixed && !c.custom)) return c;
+  if (!hn || !hnum || !hord || !hdel || c.np < 1 || c.np > 64 || (c.fixed && c.num == 'd')) return c;
   std::set<int> gs;
   for (auto& seg0 : split(body, ';')) {
     std::string seg;
@@ -148,9 +156,10 @@ static World preState(const Case& c) {
 }
 
 // one collective sync: what every process believed before is made true at the processes concerned
-static World closure(const Case& c, const World& pre) {
+static World closure(const World& pre) {
   World post = pre;
-  for (int p = 0; p < c.np; ++p)
+  int np = (int)pre.size();
+  for (int p = 0; p < np; ++p)
     for (auto& qk : pre[p].known)            // q = neighbour of p
       for (auto& ga : qk.second) {           // p believes q holds g with attribute ga.second
         int q = qk.first, g = ga.first;
@@ -161,6 +170,19 @@ static World closure(const Case& c, const World& pre) {
           if (rk.first != q && rk.second.count(g)) s.known[rk.first][g] = rk.second.at(g);
       }
   return post;
+}
+
+// the status-d copies are deleted (again): index set entry and own remote entries
+static World deleted(const Case& c, const World& w) {
+  World r = w;
+  for (auto& t : c.toks)
+    if (t.st == 'd') {
+      RankState& s = r[t.rank];
+      s.held.erase(t.g);
+      s.local.erase(t.g);
+      for (auto& k : s.known) k.second.erase(t.g);
+    }
+  return r;
 }
 
 static World originalState(const Case& c) {
@@ -174,14 +196,203 @@ static World originalState(const Case& c) {
 struct CustomNumberer {
   std::size_t operator()(const int& g) { return (std::size_t)(1000 + g); }
 };
+static const std::size_t COUNT_BASE = 2000;
+struct CountingNumberer {
+  std::size_t calls = 0;
+  std::size_t operator()(const int&) { return COUNT_BASE + calls++; }
+};
 
 struct ModHolder {
   Dune::RemoteIndexListModifier<PIS, RI::Allocator, true> m;  // must be constructed in place (its copy shares iterators)
   ModHolder(RI& ri, int q) : m(ri.getModifier<true, true>(q)) {}
 };
 
-static std::string localStr(std::size_t l) {
-  return l == std::numeric_limits<std::size_t>::max() ? "M" : std::to_string(l);
+// delete the index set entries with a global index in gs together with the remote entries that refer to them
+static void deleteLocalCopies(PIS& is, RI& ri, const std::set<int>& gs, char method) {
+  if (gs.empty()) return;
+  if (method == 'm') {
+    std::list<ModHolder> mods;
+    std::vector<std::set<int>> has;
+    for (auto it = ri.begin(); it != ri.end(); ++it) {
+      std::set<int> hg;
+      for (auto e = it->second.first->begin(); e != it->second.first->end(); ++e) hg.insert(e->localIndexPair().global());
+      has.push_back(hg);
+    }
+    std::vector<int> nbs;
+    for (auto it = ri.begin(); it != ri.end(); ++it) nbs.push_back(it->first);
+    for (int q : nbs) mods.emplace_back(ri, q);
+    is.beginResize();
+    for (auto it = is.begin(); it != is.end(); ++it) {
+      if (!gs.count(it->global())) continue;
+      is.markAsDeleted(it);
+      size_t k = 0;
+      for (auto& mh : mods) { if (has[k].count(it->global())) mh.m.remove(it->global()); ++k; }
+    }
+    is.endResize();
+    for (auto& mh : mods) mh.m.repairLocalIndexPointers();
+  } else {
+    std::map<int, GList> gl;
+    Dune::storeGlobalIndicesOfRemoteIndices(gl, ri);
+    is.beginResize();
+    for (auto it = is.begin(); it != is.end(); ++it) {
+      if (!gs.count(it->global())) continue;
+      is.markAsDeleted(it);
+      for (auto nb = ri.begin(); nb != ri.end(); ++nb) {
+        RIL& rl = *nb->second.first;
+        GList& g = gl[nb->first];
+        auto rit = rl.beginModify();
+        auto git = g.beginModify();
+        while (rit != rl.end() && git->first < it->global()) { ++rit; ++git; }
+        if (rit != rl.end() && git->first == it->global()) { rit.remove(); git.remove(); }
+      }
+    }
+    is.endResize();
+    Dune::repairLocalIndexPointers(gl, ri, is);
+  }
+}
+
+static std::string localStr(std::size_t l, bool hideCounted) {
+  if (l == std::numeric_limits<std::size_t>::max()) return "M";
+  if (hideCounted && l >= COUNT_BASE) return "S";
+  return std::to_string(l);
+}
+
+struct Observed {
+  std::map<const void*, int> posOf;  // address of an index pair -> position in the index set
+  std::map<int, int> gotHeld;        // global -> number of occurrences in the index set
+};
+
+// canonical text of this rank's state; everything that contradicts the expected state `w` goes to `bad`
+static std::string observe(const Case& c, PIS& is, RI& ri, const RankState& w, bool afterSync, long calls,
+                           const char* tag, std::ostringstream& bad0, Observed& ob) {
+  std::ostringstream os, bad;
+  bool hide = c.num == 's' && !c.fixed;
+  std::set<std::size_t> counted;
+  {
+    os << "I[";
+    int k = 0;
+    bool first = true, havePrev = false;
+    int prev = 0;
+    for (auto it = is.begin(); it != is.end(); ++it, ++k) {
+      const PIS::IndexPair& pr = *it;
+      ob.posOf[&pr] = k;
+      if (!first) os << ",";
+      first = false;
+      os << pr.global() << attrStr(pr.local().attribute()) << ":" << localStr(pr.local().local(), hide);
+      if (havePrev && !(prev < pr.global())) bad << " index set not strictly ascending at " << pr.global() << ";";
+      prev = pr.global();
+      havePrev = true;
+      auto e = w.held.find(pr.global());
+      if (e == w.held.end()) bad << " index " << pr.global() << " present but nobody held or announced it;";
+      else {
+        if (e->second != (int)pr.local().attribute())
+          bad << " index " << pr.global() << " has attribute " << attrStr(pr.local().attribute()) << " expected " << attrStr(e->second) << ";";
+        long wl = w.local.at(pr.global());
+        std::size_t got = pr.local().local();
+        if (wl < 0 && c.num == 's') {
+          // a number handed out by the counting numberer: from its block, never twice
+          if (got < COUNT_BASE || got >= COUNT_BASE + (std::size_t)calls)
+            bad << " index " << pr.global() << " local number " << got << " was not handed out by the numberer (" << calls << " calls);";
+          if (!counted.insert(got).second) bad << " local number " << got << " given to two indices;";
+        } else {
+          std::size_t expectLocal = wl >= 0 ? (std::size_t)wl
+                                    : (c.num == 'c' ? (std::size_t)(1000 + pr.global()) : std::numeric_limits<std::size_t>::max());
+          if (got != expectLocal)
+            bad << " index " << pr.global() << " local number " << localStr(got, false) << " expected " << localStr(expectLocal, false) << ";";
+        }
+      }
+      if (pr.local().state() != Dune::VALID) bad << " index " << pr.global() << " not in state VALID;";
+      if (!pr.local().isPublic()) bad << " index " << pr.global() << " lost its public flag;";
+      ob.gotHeld[pr.global()]++;
+    }
+    os << "]";
+    for (auto& e : w.held)
+      if (!ob.gotHeld.count(e.first)) bad << " index " << e.first << attrStr(e.second) << " missing from the index set;";
+  }
+  std::set<int> gotNb;
+  for (auto nb = ri.begin(); nb != ri.end(); ++nb) {
+    int q = nb->first;
+    gotNb.insert(q);
+    os << " N" << q << "[";
+    if (nb->second.first != nb->second.second) bad << " neighbour " << q << ": send and receive list differ;";
+    auto wk = w.known.find(q);
+    if (wk == w.known.end()) bad << " neighbour " << q << " exists but no index is shared with it;";
+    std::map<int, int> got;
+    bool first = true, havePrev = false;
+    int prev = 0;
+    for (auto e = nb->second.first->begin(); e != nb->second.first->end(); ++e) {
+      if (!first) os << ",";
+      first = false;
+      const RIdx& re = *e;
+      // locate the referenced pair without dereferencing the stored pointer (it may be null or stale):
+      // RemoteIndex::operator== compares the pointer and the attribute
+      auto po = ob.posOf.end();
+      for (auto cand = ob.posOf.begin(); cand != ob.posOf.end(); ++cand)
+        if (re == RIdx(re.attribute(), static_cast<const PIS::IndexPair*>(cand->first))) { po = cand; break; }
+      if (po == ob.posOf.end()) {
+        os << "?" << attrStr(re.attribute());
+        bad << " neighbour " << q << ": entry does not reference an element of the index set;";
+        continue;
+      }
+      int g = re.localIndexPair().global();
+      os << g << attrStr(re.localIndexPair().local().attribute()) << attrStr(re.attribute()) << "@" << po->second;
+      if (havePrev && !(prev < g)) bad << " neighbour " << q << ": list not strictly ascending at " << g << ";";
+      prev = g;
+      havePrev = true;
+      got[g] = re.attribute();
+      if (wk != w.known.end()) {
+        auto we = wk->second.find(g);
+        if (we == wk->second.end()) bad << " neighbour " << q << ": entry for " << g << " that nobody knew;";
+        else if (we->second != (int)re.attribute())
+          bad << " neighbour " << q << ": entry for " << g << " has remote attribute " << attrStr(re.attribute()) << " expected " << attrStr(we->second) << ";";
+      }
+    }
+    os << "]";
+    if (wk != w.known.end())
+      for (auto& we : wk->second)
+        if (!got.count(we.first)) bad << " neighbour " << q << ": entry for " << we.first << " (remote " << attrStr(we.second) << ") missing;";
+  }
+  for (auto& wk : w.known)
+    if (!gotNb.count(wk.first)) bad << " neighbour " << wk.first << " missing;";
+  if (afterSync) {
+    os << " S" << (ri.isSynced() ? 1 : 0);
+    if (!ri.isSynced()) bad << " remote indices not in sync after sync();";
+    if (c.num == 's') os << " K" << calls;
+  }
+  if (!bad.str().empty()) bad0 << " [" << tag << "]" << bad.str();
+  return os.str();
+}
+
+// the "in particular" sentence, evaluated separately: wherever a holder of g kept its copy, everything about g is as
+// in the original state (only for pure deletion cases)
+static void checkRestored(const Case& c, int rank, RI& ri, const Observed& ob, const char* tag, std::ostringstream& bad) {
+  std::map<int, std::map<int, int>> D;
+  for (auto& t : c.toks) D[t.g][t.rank] = t.attr;
+  World orig = originalState(c);
+  const RankState& o = orig[rank];
+  for (auto& gd : D) {
+    bool survivor = false;
+    for (auto& t : c.toks) if (t.g == gd.first && t.st == 'k') survivor = true;
+    if (!survivor) continue;
+    int g = gd.first;
+    bool heldO = o.held.count(g), heldN = ob.gotHeld.count(g);
+    if (heldO != heldN) bad << " [" << tag << "] restore: index " << g << (heldO ? " not restored;" : " appeared;");
+    for (auto& ok : o.known) {
+      if (!ok.second.count(g)) continue;
+      auto nb = ri.find(ok.first);
+      bool found = false;
+      if (nb != ri.end())
+        for (auto e = nb->second.first->begin(); e != nb->second.first->end(); ++e) {
+          bool valid = false;
+          for (auto& cand : ob.posOf)
+            if (*e == RIdx(e->attribute(), static_cast<const PIS::IndexPair*>(cand.first))) valid = true;
+          if (!valid) continue;
+          if (e->localIndexPair().global() == g && (int)e->attribute() == ok.second.at(g) &&
+              (int)e->localIndexPair().local().attribute() == o.held.at(g)) found = true;
+        }
+      if (!found) bad << " [" << tag << "] restore: remote entry (" << ok.first << "," << g << ") not restored;";
+    }
+  }
 }
 
 static Result exec(const std::string& line) {
@@ -211,51 +422,10 @@ static Result exec(const std::string& line) {
   ri.rebuild<false>();
 
   // 2a. delete local copies and their remote entries
-  bool anyDel = false, anyAdd = false;
-  for (auto& t : mine) { anyDel |= t.st == 'd'; anyAdd |= t.st == 'a'; }
-  if (anyDel && c.del == 'm') {
-    std::list<ModHolder> mods;
-    std::vector<std::set<int>> has;
-    for (auto it = ri.begin(); it != ri.end(); ++it) {
-      std::set<int> gs;
-      for (auto e = it->second.first->begin(); e != it->second.first->end(); ++e) gs.insert(e->localIndexPair().global());
-      has.push_back(gs);
-    }
-    std::vector<int> nbs;
-    for (auto it = ri.begin(); it != ri.end(); ++it) nbs.push_back(it->first);
-    for (int q : nbs) mods.emplace_back(ri, q);
-    is.beginResize();
-    for (auto it = is.begin(); it != is.end(); ++it) {
-      bool del = false;
-      for (auto& t : mine) if (t.g == it->global() && t.st == 'd') del = true;
-      if (!del) continue;
-      is.markAsDeleted(it);
-      size_t k = 0;
-      for (auto& mh : mods) { if (has[k].count(it->global())) mh.m.remove(it->global()); ++k; }
-    }
-    is.endResize();
-    for (auto& mh : mods) mh.m.repairLocalIndexPointers();
-  } else if (anyDel) {
-    std::map<int, GList> gl;
-    Dune::storeGlobalIndicesOfRemoteIndices(gl, ri);
-    is.beginResize();
-    for (auto it = is.begin(); it != is.end(); ++it) {
-      bool del = false;
-      for (auto& t : mine) if (t.g == it->global() && t.st == 'd') del = true;
-      if (!del) continue;
-      is.markAsDeleted(it);
-      for (auto nb = ri.begin(); nb != ri.end(); ++nb) {
-        RIL& rl = *nb->second.first;
-        GList& g = gl[nb->first];
-        auto rit = rl.beginModify();
-        auto git = g.beginModify();
-        while (rit != rl.end() && git->first < it->global()) { ++rit; ++git; }
-        if (rit != rl.end() && git->first == it->global()) { rit.remove(); git.remove(); }
-      }
-    }
-    is.endResize();
-    Dune::repairLocalIndexPointers(gl, ri, is);
-  }
+  std::set<int> delGs;
+  bool anyAdd = false;
+  for (auto& t : mine) { if (t.st == 'd') delGs.insert(t.g); anyAdd |= t.st == 'a'; }
+  deleteLocalCopies(is, ri, delGs, c.del);
   // 2b. add new local indices together with what this process knows about their other holders
   if (anyAdd) {
     std::map<int, GList> gl;
@@ -281,132 +451,93 @@ static Result exec(const std::string& line) {
     Dune::repairLocalIndexPointers(gl, ri, is);
   }
 
-  // 3. the operation under test
-  Dune::IndicesSyncer<PIS> syncer(is, ri);
-  if (c.custom) {
-    CustomNumberer num;
-    syncer.sync(num, c.fixed);
-  } else
-    syncer.sync();
-
-  // 4. canonical state + property oracle
-  World pre = preState(c), want = closure(c, pre);
-  const RankState& w = want[rank];
+  World pre = preState(c), want = closure(pre);
   std::ostringstream os, bad;
-  std::map<const void*, int> posOf;
-  std::map<int, int> gotHeld;
-  {
-    os << "I[";
-    int k = 0;
-    bool first = true, havePrev = false;
-    int prev = 0;
-    for (auto it = is.begin(); it != is.end(); ++it, ++k) {
-      const PIS::IndexPair& pr = *it;
-      posOf[&pr] = k;
-      if (!first) os << ",";
-      first = false;
-      os << pr.global() << attrStr(pr.local().attribute()) << ":" << localStr(pr.local().local());
-      if (havePrev && !(prev < pr.global())) bad << " index set not strictly ascending at " << pr.global() << ";";
-      prev = pr.global();
-      havePrev = true;
-      auto e = w.held.find(pr.global());
-      if (e == w.held.end()) bad << " index " << pr.global() << " present but nobody held or announced it;";
-      else {
-        if (e->second != (int)pr.local().attribute())
-          bad << " index " << pr.global() << " has attribute " << attrStr(pr.local().attribute()) << " expected " << attrStr(e->second) << ";";
-        long wl = w.local.at(pr.global());
-        std::size_t expectLocal = wl >= 0 ? (std::size_t)wl
-                                  : (c.custom ? (std::size_t)(1000 + pr.global()) : std::numeric_limits<std::size_t>::max());
-        if (pr.local().local() != expectLocal)
-          bad << " index " << pr.global() << " local number " << localStr(pr.local().local()) << " expected " << localStr(expectLocal) << ";";
-      }
-      if (pr.local().state() != Dune::VALID) bad << " index " << pr.global() << " not in state VALID;";
-      gotHeld[pr.global()]++;
-    }
-    os << "]";
-    for (auto& e : w.held)
-      if (!gotHeld.count(e.first)) bad << " index " << e.first << attrStr(e.second) << " missing from the index set;";
-  }
-  std::set<int> gotNb;
-  for (auto nb = ri.begin(); nb != ri.end(); ++nb) {
-    int q = nb->first;
-    gotNb.insert(q);
-    os << " N" << q << "[";
-    if (nb->second.first != nb->second.second) bad << " neighbour " << q << ": send and receive list differ;";
-    auto wk = w.known.find(q);
-    if (wk == w.known.end()) bad << " neighbour " << q << " exists but no index is shared with it;";
-    std::map<int, int> got;
-    bool first = true, havePrev = false;
-    int prev = 0;
-    for (auto e = nb->second.first->begin(); e != nb->second.first->end(); ++e) {
-      if (!first) os << ",";
-      first = false;
-      const RIdx& re = *e;
-      // locate the referenced pair without dereferencing the stored pointer (it may be null or stale):
-      // RemoteIndex::operator== compares the pointer and the attribute
-      auto po = posOf.end();
-      for (auto cand = posOf.begin(); cand != posOf.end(); ++cand)
-        if (re == RIdx(re.attribute(), static_cast<const PIS::IndexPair*>(cand->first))) { po = cand; break; }
-      if (po == posOf.end()) {
-        os << "?" << attrStr(re.attribute());
-        bad << " neighbour " << q << ": entry does not reference an element of the index set;";
-        continue;
-      }
-      int g = re.localIndexPair().global();
-      os << g << attrStr(re.localIndexPair().local().attribute()) << attrStr(re.attribute()) << "@" << po->second;
-      if (havePrev && !(prev < g)) bad << " neighbour " << q << ": list not strictly ascending at " << g << ";";
-      prev = g;
-      havePrev = true;
-      got[g] = re.attribute();
-      if (wk != w.known.end()) {
-        auto we = wk->second.find(g);
-        if (we == wk->second.end()) bad << " neighbour " << q << ": entry for " << g << " that nobody knew;";
-        else if (we->second != (int)re.attribute())
-          bad << " neighbour " << q << ": entry for " << g << " has remote attribute " << attrStr(re.attribute()) << " expected " << attrStr(we->second) << ";";
-      }
-    }
-    os << "]";
-    if (wk != w.known.end())
-      for (auto& we : wk->second)
-        if (!got.count(we.first)) bad << " neighbour " << q << ": entry for " << we.first << " (remote " << attrStr(we.second) << ") missing;";
-  }
-  for (auto& wk : w.known)
-    if (!gotNb.count(wk.first)) bad << " neighbour " << wk.first << " missing;";
-  os << " S" << (ri.isSynced() ? 1 : 0);
-  if (!ri.isSynced()) bad << " remote indices not in sync after sync();";
-
-  // the "in particular" sentence, evaluated separately: wherever a holder of g kept its copy, everything about g is as
-  // in the original state; (only for pure deletion cases)
+  CountingNumberer counting;
+  // the ranks enter the sync at different times (seeded by the op line), so that the messages of the neighbours
+  // arrive in varying orders and fast ranks are already in their next sync while slow ones still receive
+  uint64_t jitterSeed = 1469598103934665603ull;
+  for (char ch : line) jitterSeed = (jitterSeed ^ (unsigned char)ch) * 1099511628211ull;
+  Rng jitter(jitterSeed * 64 + (uint64_t)rank);
+  auto doSync = [&]() {
+    static const int DELAY[] = {0, 0, 0, 0, 50, 150, 400, 1000};
+    int d = DELAY[jitter.below(8)];
+    if (d && c.np > 1) usleep(d);
+    Dune::IndicesSyncer<PIS> syncer(is, ri);
+    if (c.num == 'c') {
+      CustomNumberer num;
+      syncer.sync(num, c.fixed);
+    } else if (c.num == 's')
+      syncer.sync(counting, c.fixed);
+    else
+      syncer.sync();
+  };
+  auto inserted = [&](const World& before, const World& after) {
+    long n = 0;
+    for (auto& h : after[rank].held) if (!before[rank].held.count(h.first)) ++n;
+    return n;
+  };
   bool pureDeletion = true;
   for (auto& t : c.toks) if (t.st == 'a' || t.st == 'n') pureDeletion = false;
-  if (pureDeletion) {
-    World orig = originalState(c);
-    const RankState& o = orig[rank];
-    for (auto& gd : D) {
-      bool survivor = false;
-      for (auto& t : c.toks) if (t.g == gd.first && t.st == 'k') survivor = true;
-      if (!survivor) continue;
-      int g = gd.first;
-      bool heldO = o.held.count(g), heldN = gotHeld.count(g);
-      if (heldO != heldN) bad << " restore: index " << g << (heldO ? " not restored;" : " appeared;");
-      for (auto& ok : o.known) {
-        if (!ok.second.count(g)) continue;
-        auto nb = ri.find(ok.first);
-        bool found = false;
-        if (nb != ri.end())
-          for (auto e = nb->second.first->begin(); e != nb->second.first->end(); ++e) {
-            bool valid = false;
-            for (auto& cand : posOf)
-              if (*e == RIdx(e->attribute(), static_cast<const PIS::IndexPair*>(cand.first))) valid = true;
-            if (!valid) continue;
-            if (e->localIndexPair().global() == g && (int)e->attribute() == ok.second.at(g) &&
-                (int)e->localIndexPair().local().attribute() == o.held.at(g)) found = true;
-          }
-        if (!found) bad << " restore: remote entry (" << ok.first << "," << g << ") not restored;";
-      }
+
+  // 3. the state before the sync (ties the model's consistent state / deletion / announcement to the real code)
+  {
+    Observed ob;
+    os << "A(" << observe(c, is, ri, pre[rank], false, 0, "before", bad, ob) << ")";
+  }
+  // 4. the operation under test
+  doSync();
+  long expectCalls = inserted(pre, want);
+  {
+    Observed ob;
+    os << " B(" << observe(c, is, ri, want[rank], true, (long)counting.calls, "sync", bad, ob) << ")";
+    if (c.num == 's' && (long)counting.calls != expectCalls)
+      bad << " [sync] numberer called " << counting.calls << " times for " << expectCalls << " new indices;";
+    if (pureDeletion) checkRestored(c, rank, ri, ob, "sync", bad);
+  }
+  // with the counting numberer the numbers show in which order the messages were processed: compare with the
+  // order by ascending source rank (statistics only)
+  int orderDiffers = 0;
+  if (c.num == 's' && !c.fixed) {
+    std::map<int, std::size_t> byRank;
+    std::size_t next = COUNT_BASE;
+    for (int p = 0; p < c.np; ++p) {
+      auto k = pre[p].known.find(rank);
+      if (k == pre[p].known.end()) continue;
+      for (auto& ga : k->second)
+        if (!pre[rank].held.count(ga.first) && !byRank.count(ga.first)) byRank[ga.first] = next++;
+    }
+    for (auto it = is.begin(); it != is.end(); ++it) {
+      auto e = byRank.find(it->global());
+      if (e != byRank.end() && e->second != it->local().local()) orderDiffers = 1;
     }
   }
+  // 5. second round
+  World pre2, want2;
+  if (c.re != '0') {
+    pre2 = c.re == 'd' ? deleted(c, want) : want;
+    want2 = closure(pre2);
+    if (c.re == 'd') {
+      std::set<int> gs2;
+      for (auto& g : delGs) if (want[rank].held.count(g)) gs2.insert(g);
+      std::set<int> present;
+      for (auto it = is.begin(); it != is.end(); ++it) if (gs2.count(it->global())) present.insert(it->global());
+      deleteLocalCopies(is, ri, present, c.del);
+    }
+    doSync();
+    expectCalls += inserted(pre2, want2);
+    Observed ob;
+    os << " C(" << observe(c, is, ri, want2[rank], true, (long)counting.calls, "second sync", bad, ob) << ")";
+    if (c.num == 's' && (long)counting.calls != expectCalls)
+      bad << " [second sync] numberer called " << counting.calls << " times for " << expectCalls << " new indices;";
+    if (pureDeletion) checkRestored(c, rank, ri, ob, "second sync", bad);
+  }
 
+  {
+    int any = 0;
+    MPI_Allreduce(&orderDiffers, &any, 1, MPI_INT, MPI_MAX, MPI_COMM_WORLD);
+    if (rank == 0 && c.num == 's' && !c.fixed) stat(any ? "arrival_order_observed_other_than_rank_order" : "arrival_order_observed_rank_order");
+  }
   res.impl = os.str();
   bool trivial = true;
   for (auto& s : pre) for (auto& k : s.known) if (!k.second.empty()) trivial = false;
@@ -414,23 +545,41 @@ static Result exec(const std::string& line) {
   else res.oracle = trivial ? "ok trivial" : "ok";
 
   if (rank == 0) {
-    long del = 0, add = 0, notheld = 0, restored = 0, newnb = 0, lost = 0;
-    for (auto& t : c.toks) { del += t.st == 'd'; add += t.st == 'a'; notheld += t.st == 'n'; }
+    long del = 0, delOwner = 0, add = 0, notheld = 0, restored = 0, newnb = 0, lost = 0, several = 0, restored2 = 0, newnb2 = 0;
+    for (auto& t : c.toks) { del += t.st == 'd'; delOwner += t.st == 'd' && t.attr == 0; add += t.st == 'a'; notheld += t.st == 'n'; }
     for (int p = 0; p < c.np; ++p) {
       for (auto& h : want[p].held) if (!pre[p].held.count(h.first)) ++restored;
       for (auto& k : want[p].known) if (!pre[p].known.count(k.first)) ++newnb;
+      if (c.re != '0') {
+        for (auto& h : want2[p].held) if (!pre2[p].held.count(h.first)) ++restored2;
+        for (auto& k : want2[p].known) if (!want[p].known.count(k.first)) ++newnb2;
+      }
+    }
+    // an index that a process does not hold and that is announced to it by two or more neighbours
+    {
+      std::map<std::pair<int, int>, int> announced;
+      for (int p = 0; p < c.np; ++p)
+        for (auto& qk : pre[p].known)
+          for (auto& ga : qk.second)
+            if (!pre[qk.first].held.count(ga.first)) announced[std::make_pair(qk.first, ga.first)]++;
+      for (auto& a : announced) if (a.second >= 2) ++several;
     }
     for (auto& t : c.toks) if (t.st == 'd' && !want[t.rank].held.count(t.g)) ++lost;
     stat("globals", (long)D.size());
     stat("copies_deleted", del);
+    stat("owner_copies_deleted", delOwner);
     stat("copies_added_locally", add);
     stat("copies_only_believed", notheld);
     stat("indices_inserted_by_sync", restored);
+    stat("indices_announced_by_several_neighbours", several);
     stat("deleted_everywhere_not_restored", lost);
     stat("new_neighbours", newnb);
-    stat(std::string("num_") + (c.custom ? "custom" : "default"));
+    stat(std::string("num_") + (c.num == 'c' ? "custom" : c.num == 's' ? "stateful" : "default"));
     stat(std::string("order_") + (c.fixed ? "fixed" : "arrival"));
     if (del) stat(std::string("delete_via_") + (c.del == 'm' ? "modifier" : "sllist"));
+    if (c.re == 's') stat("second_round_sync_again");
+    if (c.re == 'd') stat("second_round_delete_and_sync");
+    if (c.re != '0') { stat("second_round_indices_inserted", restored2); stat("second_round_new_neighbours", newnb2); }
     if (trivial) stat("trivial");
   }
   return res;
@@ -442,15 +591,21 @@ static std::string gen(Rng& r, long, const Args& a) {
   MPI_Comm_size(MPI_COMM_WORLD, &size);
   bool thorough = a.tier == "thorough";
   std::ostringstream os;
-  bool custom = r.coin();
-  bool fixed = custom && r.coin(1, 3);
-  os << "np=" << size << " num=" << (custom ? "c" : "d") << " ord=" << (fixed ? "f" : "a") << " del=" << (r.coin() ? "m" : "r") << " : ";
+  int nk = (int)r.below(8);
+  char num = nk < 3 ? 'd' : nk < 6 ? 'c' : 's';
+  bool fixed = num != 'd' && r.coin(1, num == 's' ? 2 : 3);
+  int rk = (int)r.below(20);
+  char re = rk < 12 ? '0' : rk < 15 ? 's' : 'd';
+  os << "np=" << size << " num=" << num << " ord=" << (fixed ? "f" : "a") << " del=" << (r.coin() ? "m" : "r");
+  if (re != '0' || r.coin(1, 8)) os << " re=" << re;
+  os << " : ";
   int maxG = thorough ? 14 : 9;
   int nG = (int)r.below(maxG + 1);
   if (r.coin(1, 12)) nG = (int)r.below(2);
   int style = (int)r.below(4);   // 0: one owner, rest overlap/copy; 1: + sometimes ownerless; 2: arbitrary; 3: all equal attr
   bool chain = size >= 3 && r.coin(1, 3);  // sparse neighbour graph: indices shared by consecutive ranks only
   int pdel = r.pick(std::vector<int>{0, 25, 50, 50, 75, 100});
+  bool delOwners = r.coin(1, 6);  // the sync does not look at the attribute values: owner copies may be deleted as well
   int padd = r.coin(1, 3) ? r.pick(std::vector<int>{15, 30, 60}) : 0;
   if (chain && r.coin()) padd = r.pick(std::vector<int>{30, 60});
   int g = (int)r.range(-3, 3);
@@ -490,7 +645,7 @@ static std::string gen(Rng& r, long, const Args& a) {
       else if (style == 3) at = eq;
       else at = (p == own) ? 0 : 1 + (int)r.below(2);
       char st = 'k';
-      if (at != 0 && (int)r.below(100) < pdel) st = 'd';
+      if ((at != 0 || delOwners) && (int)r.below(100) < pdel) st = 'd';
       if (late.count(p) || (!chain && padd && (int)r.below(100) < padd)) st = r.coin() ? 'a' : 'n';
       toks.push_back(std::to_string(p) + ATTR[at] + st);
     }
